@@ -40,8 +40,7 @@ Flag(ok, prop, pred, r, tags) ==
 
 \* deviation tag: the failure is explained by a TXT record that still names a deleted container under a name
 \* it carried before its last alias (DESIGN 5.4 row 9)
-Tags(r) ==
-  IF \E c \in g'.dead : \E nm \in g'.names[c] : InSeq(c, txt'[nm]) THEN {"StaleAliasRecord"} ELSE {}
+Tags(r) == IF OnlyFormerAliasRecords(g') /\ \A c \in g'.dead : r.obs.strayOf[c] = 0 THEN {"StaleAliasRecord"} ELSE {}
 
 SpecStep(r) ==
   LET e == EvOf(r) IN
@@ -72,10 +71,10 @@ Judge(r) ==
       /\ Flag(C04_Final(g, e), "C04", "Final", r, t)
       /\ Flag(C04_NoTrace(g2) /\ \A c \in g2.dead : r.obs.strayOf[c] = 0, "C04", "NoTrace", r, t)
       /\ Flag(C04_Notif(g, e), "C04", "Notif", r, t)
-      /\ Flag(C05_Exact(e) /\ (r.act = "put" => r.obs.strayBal = <<>> /\ r.bad = <<>>), "C05", "Exact", r, t)
+      /\ Flag(C05_Exact(e) /\ (r.act = "put" => r.obs.strayBal = <<>> /\ r.badAmt = <<>>), "C05", "Exact", r, t)
       /\ Flag(C05_MustPay(e), "C05", "MustPay", r, t)
       /\ Flag(C05_Atomic(e), "C05", "Atomic", r, t)
-      /\ Flag(r.obs.stray = <<>> /\ r.bad = <<>>, "DRIFT", "StrayOrUnmapped", r, t)
+      /\ Flag(r.obs.stray = <<>> /\ r.bad = <<>> /\ r.badAmt = <<>>, "DRIFT", "StrayOrUnmapped", r, t)
       /\ Flag(SpecStep(r), "DRIFT", "SpecStep", r, t)
 
 Bind(o) ==
